@@ -524,8 +524,18 @@ def r7(ctx):
                 return rd.dest[0] not in sl_.locals and acc not in sl_.locals and bool(sl_.upvars or sl_.params)
             if (is_acc(na) and is_bound(nb, na)) or (is_acc(nb) and is_bound(na, nb)):
                 kind = 'bound'
-        elif dd[0] == 'stmt' and dd[1]['rv']['k'] == 'disc' and dd[1]['rv']['p'][0] == rd.dest[0]:
+        elif dd[0] == 'stmt' and dd[1]['rv']['k'] == 'disc' and (dd[1]['rv']['p'][0] == rd.dest[0] or any(
+                k.matches(r'Try>::branch$|Try::branch$') and k.dest[0] == dd[1]['rv']['p'][0] and op_local(k.args[0]) in forward_locals(b, rd.dest[0]) for k in b.calls())):
+            # `match read(..)` or `read(..)?` (the discriminant of Try::branch(result))
             kind = 'error'
+        elif dd[0] == 'stmt' and dd[1]['rv']['k'] == 'bin' and dd[1]['rv']['op'] in ('Eq', 'Ne') and 0 in (const_int(dd[1]['rv']['a']), const_int(dd[1]['rv']['b'])):
+            # `if n == 0 { break }` on the number of bytes just read
+            other = dd[1]['rv']['b'] if const_int(dd[1]['rv']['a']) == 0 else dd[1]['rv']['a']
+            if op_local(other) in forward_locals(b, rd.dest[0], through_calls=lambda c_, i_: c_.matches(r'Try>::branch$|Try::branch$')):
+                tt, ft = switch_targets_bool(t)
+                zero = tt if dd[1]['rv']['op'] == 'Eq' else ft
+                if zero == s or (zero not in loop and s in b.reachable(zero)):
+                    kind = 'eof'
         else:
             # switch on the Ok payload: value 0 leaves
             pl = op_place(t['op'])
